@@ -237,31 +237,36 @@ def canon_code(d):
 
 # ----------------------------------------------------------------------------- independent multinomial reference (TEST)
 def multinomial_element(isos, n):
-    """exact n-fold distribution of one element from multinomial coefficients: dict mass -> abundance (Fractions)"""
+    """exact n-fold distribution of one element from multinomial coefficients, integer arithmetic:
+    isos = [(key numerator, abundance numerator)], result dict key numerator -> abundance numerator (scale abScale^n)"""
     k = len(isos)
     out = {}
 
-    def rec(i, left, mass, coef, ab):
+    def rec(i, left, mass, coef_ab):
         if i == k - 1:
             m = mass + isos[i][0] * left
-            a = ab * isos[i][1] ** left * coef
+            a = coef_ab * isos[i][1] ** left
             out[m] = out.get(m, 0) + a
             return
         for j in range(left + 1):
-            rec(i + 1, left - j, mass + isos[i][0] * j, coef * math.comb(left, j), ab * isos[i][1] ** j)
+            rec(i + 1, left - j, mass + isos[i][0] * j, coef_ab * math.comb(left, j) * isos[i][1] ** j)
 
-    rec(0, n, Fraction(0), 1, Fraction(1))
+    if k == 0:
+        return {0: 1} if n == 0 else {}
+    rec(0, n, 0, 1)
     return out
 
 
 def multinomial_formula(table, f, neutron):
-    total = {Fraction(0): Fraction(1)}
+    """independent reference: {key numerator: abundance numerator}; keys over 10^12 (mass view) or 1 (neutron offsets),
+    abundances over 10^(9 * number of atoms)"""
+    total = {0: 1}
     for el, n in f.items():
         mono, isos = table[el]
         if neutron:
-            lst = [(Fraction(a - isos[0][0]), Fraction(ab, 10 ** 9)) for a, _, ab in isos]
+            lst = [(a - isos[0][0], ab) for a, _, ab in isos]
         else:
-            lst = [(Fraction(m, 10 ** 12), Fraction(ab, 10 ** 9)) for _, m, ab in isos]
+            lst = [(m, ab) for _, m, ab in isos]
         ed = multinomial_element(lst, n)
         new = {}
         for m1, a1 in total.items():
@@ -602,7 +607,7 @@ def run(chk):
             small.append(tuple(comb.count(j) for j in range(6)))
     chk.notes.append(f'exact multinomial TEST: {len(small)} compositions over C,H,N,O,S,P with <= 12 atoms exist')
     if quick:
-        sel = rng.sample(small, 250)
+        sel = rng.sample(small, 600)
     else:
         sel = small
         chk.exhaustive = True
@@ -638,11 +643,6 @@ def run(chk):
             _mn[k] = multinomial_formula(table, c[0], c[1])
         return _mn[k]
 
-    def x_ref(c):
-        tot = mn(c)
-        mx = max(tot.values())
-        return sorted((m, a / mx) for m, a in tot.items())
-
     _xcase = {}
 
     def x_impl(c):
@@ -659,9 +659,11 @@ def run(chk):
         """exact equality of the model output with the reference, by cross-multiplication (no float, no rounding)"""
         if not m.startswith('OK\t'):
             return False
-        tot = mn(_xcase[im])
+        c = _xcase[im]
+        tot = mn(c)
         items = sorted(tot.items())
         mx = max(tot.values())
+        kscale = 1 if c[1] else 10 ** 12
         parts_ = m.split('\t')[3].split(';')
         if len(parts_) != len(items):
             return False
@@ -669,9 +671,9 @@ def run(chk):
             ks, as_ = part.split(':')
             kp, kq = _pq(ks)
             ap, aq = _pq(as_)
-            if kp * mk.denominator != mk.numerator * kq:
+            if kp * kscale != mk * kq:
                 return False
-            if ap * mx.numerator * ma.denominator != ma.numerator * mx.denominator * aq:
+            if ap * mx != ma * aq:
                 return False
         return True
 
@@ -699,18 +701,19 @@ def run(chk):
         r = call_iso(pt, (c[0], o))
         tot = _mn.pop(repr(c), None) or multinomial_formula(table, c[0], c[1])   # memo entry is released here
         sm = sum(tot.values())
+        kscale = 1 if c[1] else 10 ** 12
         members = sorted(tot.items())
         cl = []          # cluster index per member (single linkage, gap < 2e-5)
         for j, (m, a) in enumerate(members):
-            cl.append(cl[-1] if j and m - members[j - 1][0] < Fraction(2, 10 ** 5) else (cl[-1] + 1 if j else 0))
+            cl.append(cl[-1] if j and (m - members[j - 1][0]) * 10 ** 5 < 2 * kscale else (cl[-1] + 1 if j else 0))
         ncl = (cl[-1] + 1) if cl else 0
         exp = [0.0] * ncl
         for j, (m, a) in enumerate(members):
-            exp[cl[j]] += float(a / sm)
+            exp[cl[j]] += a / sm
         got = [0.0] * ncl
-        keys = [float(m) for m, _ in members]
+        keys = [m / kscale for m, _ in members]
         import bisect
-        abs_tol = FLOOR_K * 1e-8 / float(sm)
+        abs_tol = FLOOR_K * 1e-8
         for m, a in r:
             i = bisect.bisect_left(keys, m)
             best = min((j for j in (i - 1, i) if 0 <= j < len(keys)), key=lambda j: abs(keys[j] - m), default=None)
@@ -731,7 +734,7 @@ def run(chk):
     # ---------------------------------------------------------------- oracle: every clause on the real code
     big = chk.broken() or bool(os.environ.get('C14_FORCE_BIG'))
     ocases = list(cases)
-    extra = (200 if quick else 3000) * (3 if big else 1)
+    extra = (400 if quick else 3000) * (3 if big else 1)
     for _ in range(extra):
         o = gen_opts(rng, constants)
         if rng.random() < 0.6:
@@ -887,6 +890,25 @@ def check_clauses(c):
     round_allow = (len(els) + 1) * 0.5 * 10.0 ** -res if res is not None else 0.0
     if no_pruning(o):
         mono = pt.chem_mass(dict(f))
+        frac = has_real_fraction(f)
+        if frac:
+            # inside the two known findings the code's behaviour is still pinned exactly (rigid shift of the rounded formula's
+            # pattern), so that any *other* deviation for fractional formulas is reported under a different message
+            rounded = {k: (v if k in ('e', 'p', 'n') else round(v)) for k, v in f.items()}
+            parts_only = {k: v for k, v in f.items() if k in ('e', 'p', 'n')}
+            delta = pt.chem_mass({k: v for k, v in f.items() if k not in ('e', 'p', 'n')}) - \
+                pt.chem_mass({k: v for k, v in rounded.items() if k not in ('e', 'p', 'n')})
+            pm = pt.chem_mass(parts_only) if parts_only else 0.0
+            if not o['use_neutron_count'] and all(k in CHNOSP + HEAVY + LABELLED for k in els):
+                exp_mean = pt.chem_mass({k: v for k, v in rounded.items() if k not in ('e', 'p', 'n')}, monoisotopic=False) + delta + pm
+                mean = math.fsum(m * x for m, x in r) / math.fsum(abund)
+                if abs(mean - exp_mean) > 1e-6 * abs(exp_mean) + round_allow + 1e-9:
+                    return f'fractional formula: mean {mean!r} differs even from the rigid-shift value {exp_mean!r}'
+            if o['use_neutron_count'] and o['output_masses_for_neutron_offset'] and light_ok:
+                exp_light = pt.chem_mass({k: v for k, v in rounded.items() if k not in ('e', 'p', 'n')}) + \
+                    delta * o['neutron_mass'] + pm
+                if abs(masses[0] - exp_light) > 1e-5:
+                    return f'fractional formula: lightest neutron-offset mass {masses[0]!r} differs even from the pinned value {exp_light!r}'
         if not o['use_neutron_count'] or o['output_masses_for_neutron_offset']:
             if light_ok:
                 allow = 1e-5 + (round_allow if not o['use_neutron_count'] else 0.0)
